@@ -8,9 +8,17 @@ RULE = ("MC: TLC proves on 2-3 flows (tcp/udp/default timeouts 3/1/2, 2/1/3 and 
         "allowed packet of the same tuple passed no longer ago than its protocol's timeout. R: one replayed step per edge of the "
         "2-flow graphs on a real Firewall (NewFirewallFromConfig, Drop, virtual clock) under tuple maps that differ in exactly one "
         "key component; distinct = (graph, map, unit, edge). T: seeded random timed histories of 6 flows / 2 peers validated by TLC "
-        "against the reference layer")
+        "against the reference layer. Routine caches: the cache content, its per-routine tick version and the period are part of "
+        "the modelled state; the graphs C18_cache1/2 (PktR = decided by conntrack/rules on a routine, PktCached = admitted from "
+        "the routine's cache) are replayed on real ConntrackCacheTickers under virtual time at log levels info/debug/trace; two "
+        "of three random histories run with 1-3 routines")
 ASSUMPTIONS = [
-    "decided for the default single-routine configuration (routine-local conntrack cache off: Drop is called with a nil cache)",
+    "decided for the default single-routine configuration (routine-local conntrack cache off: Drop is called with a nil cache) "
+    "and for reader routines that each own a routine-local cache: one real firewall.ConntrackCacheTicker per routine, Get() per "
+    "packet as inside.go / outside.go do, with the node's logger at info, debug, trace and discarding",
+    "the routine cache period is at most the smallest conntrack timeout (defaults: 1 s against 3-12 min): a verdict served from a "
+    "routine cache is then younger than every timeout and the statement applies without any slack (TLC proves this for the "
+    "design). A period longer than a timeout is not decided: there a cached verdict is, by design, up to one period old",
     "idle time is measured from the last packet of the flow that passed; idle > timeout must be refused, idle <= timeout is not "
     "required to pass by this property",
     "a packet refused for a flow ends that flow (it is 'not honoured again until a rule allows a new packet')",
@@ -20,13 +28,23 @@ ASSUMPTIONS = [
 ]
 
 GRAPHS = {
-    'C18_tu': {'protos': ['tcp', 'udp'], 'to': [3, 1, 2], 'verMod': 4},
+    # (quick: the single-component maps of this graph always differ in the protocol as well; C18_uu runs them all)
+    'C18_tu': {'protos': ['tcp', 'udp'], 'to': [3, 1, 2], 'verMod': 4, 'maps_quick': ['distinct', 'proto-only', 'peer-only']},
     'C18_uu': {'protos': ['udp', 'udp'], 'to': [2, 1, 3], 'verMod': 4},
+    # reader routines with routine-local conntrack caches (real firewall.ConntrackCacheTicker per routine), replayed under
+    # node log levels above and at trace: 1 flow / 2 routines / period 2 units (udp timeout 3: cache hits across instants);
+    # 2 flows / 2 routines / period 1 unit (per-tuple content of the caches)
+    'C18_cache1': {'protos': ['udp'], 'to': [1, 3, 2], 'verMod': 4, 'routines': 2, 'cachePeriod': 2,
+                   'logs': ['info', 'trace', 'debug'], 'maps': ['distinct']},
+    'C18_cache2': {'protos': ['udp', 'udp'], 'to': [2, 1, 3], 'verMod': 4, 'routines': 2, 'cachePeriod': 1,
+                   'logs': ['info', 'trace'], 'maps': ['lport-only']},
     'C19_1': {'protos': ['udp'], 'to': [2, 1, 3], 'verMod': 3, 'maps': ['distinct']},
     'C19_1t': {'protos': ['udp'], 'to': [2, 1, 3], 'verMod': 3},
     'C19_2': {'protos': ['tcp', 'udp'], 'to': [2, 1, 3], 'verMod': 3, 'maps': ['distinct', 'proto-only']},
-    'C19_sem': {'protos': ['udp', 'udp'], 'to': [2, 1, 3], 'verMod': 3, 'sem': True},
-    'C19_semx': {'protos': ['udp', 'udp'], 'to': [2, 1, 3], 'verMod': 3, 'sem': True},
+    # reloads named by the configuration [any, txt, un]: default_local_cidr_any, the rule text, and whether the node's
+    # certificate carries the unsafe network (flow 1 goes to an own address, flow 2 to an address in that network)
+    'C19_semu': {'protos': ['udp', 'udp'], 'to': [2, 1, 3], 'verMod': 3, 'sem': True},
+    'C19_semux': {'protos': ['udp', 'udp'], 'to': [2, 1, 3], 'verMod': 3, 'sem': True},
 }
 
 
@@ -42,6 +60,9 @@ def build_graphs(ctx, names, plan, rnd, max_len=60):
             raise MachineryError('edge cover incomplete for %s: %s' % (name, st))
         ctx.extra.setdefault('graphs', {})[name] = st
         g = dict(GRAPHS[name])
+        if ctx.quick and g.get('maps_quick'):
+            g['maps'] = g['maps_quick']
+        g.pop('maps_quick', None)
         g['file'] = out
         plan['graphs'].append(g)
 
@@ -71,16 +92,26 @@ def validate(ctx, res, plan, prop, idle_matters=True):
             # word the finding from the history of that flow in the rejected trace (the verdict itself is TLC's)
             to = g['to'][[2, 0, 1][f % 3]]
             now, est, last, ever = 0, False, 0, False
+            cert_unsafe, unsafe_flows, unroutable = True, [], False
             for e in (fl['trace'][:-1] if fl.get('trace') else fl['context']):
                 if e.get('ev') == 'reset':
                     now, est, last, ever = 0, False, 0, False
+                    cert_unsafe, unsafe_flows, unroutable = e.get('cert_unsafe', True), e.get('unsafe_flows', []), False
                 elif e.get('ev') == 'Sleep':
                     now += e['d']
+                elif e.get('ev') == 'Reload':
+                    cert_unsafe = e.get('cert_unsafe', True)
                 elif e.get('ev') == 'Pkt' and e.get('f') == f:
                     est = bool(e.get('pass'))
                     ever = ever or est
                     last = now if est else last
-            if not est and ever:
+                    # refused while the certificate had no unsafe network and the flow's node-side address lies in it
+                    unroutable = (not est) and (unroutable or (not cert_unsafe and f in unsafe_flows))
+            if not est and ever and unroutable:
+                key, what = 'trace:ended-flow-honoured:refused-while-unsafe-network-absent', \
+                    'no rule allows it and its flow had ended: a packet of it was refused while the certificate did not carry the ' \
+                    'unsafe network of its node-side address (Drop refuses on the local address without forgetting the tracked flow)'
+            elif not est and ever:
                 key, what = 'trace:ended-flow-honoured:%s' % proto, \
                     'no rule allows it and its flow had ended (a packet of it was refused since it last passed)'
             elif not est:
@@ -90,6 +121,8 @@ def validate(ctx, res, plan, prop, idle_matters=True):
                     'no rule allows it and its flow was idle for %d units, longer than the %s timeout (%d units)' % (now - last, proto, to)
             else:
                 key, what = 'trace:flow-not-revalidated', 'the current rules allow neither it nor the direction in which its flow was opened'
+            if ln.get('via'):       # the verdict came from a routine-local conntrack cache
+                key += ':from-' + ln['via']
             ctx.violation(key, 'recorded verdict %s: the packet passed although %s' % (json.dumps(ln), what), fl)
 
 
@@ -97,21 +130,28 @@ def run(ctx):
     rnd = random.Random(ctx.seed)
     plan = {'graphs': [], 'groups': [], 'traces': 30 if ctx.quick else 200, 'events': 50 if ctx.quick else 80, 'flows': 6,
             'reloads': False}
-    build_graphs(ctx, ['C18_tu', 'C18_uu'], plan, rnd)
+    build_graphs(ctx, ['C18_tu', 'C18_uu', 'C18_cache1', 'C18_cache2'], plan, rnd)
     aswritten(ctx, 'MC_Conntrack_C18_aswritten.cfg', 'PassPermitted')
     if not ctx.quick:
         ctx.tlc('Conntrack', 'MC_Conntrack_C18_uut.cfg', timeout=2400)
         ctx.tlc('Conntrack', 'MC_Conntrack_C18_tuo.cfg', timeout=2400)
+        ctx.tlc('Conntrack', 'MC_Conntrack_C18_cache2x.cfg', timeout=2400)    # 2 flows x 2 routines, cache hits across instants
     groups = [[2, 1, 3], [5, 2, 7]] if ctx.quick else [[2, 1, 3], [5, 2, 7], [3, 3, 3], [720, 180, 600]]
     for to in groups:
-        plan['groups'].append({'file': 'c18_trace_%d_%d_%d.ndjson' % tuple(to), 'to': to})
+        # routine caches in the histories: period = the smallest timeout (the statement then applies without slack)
+        plan['groups'].append({'file': 'c18_trace_%d_%d_%d.ndjson' % tuple(to), 'to': to, 'cachePeriod': min(to)})
     with open(os.path.join(ctx.scratch, 'c18_plan.json'), 'w') as f:
         json.dump(plan, f)
     res = ctx.gotest('.', 'TestVerif_C18', also=('ct',))
     ctx.take_mismatches(res)
     validate(ctx, res, plan, 'C18')
-    ctx.require_actions('Sleep', 'Pkt', 'R:tour', 'R:map:distinct', 'R:map:rport-only', 'R:map:lport-only', 'R:map:peer-only',
-                        'R:map:local-only', 'R:map:proto-only', 'T:Pkt', 'T:pass', 'T:drop', 'T:long-idle')
+    if not ctx.violations:      # a violation ends its history early; vacuity only matters for a pass
+        ctx.require_actions('Sleep', 'Pkt', 'R:tour', 'R:map:distinct', 'R:map:rport-only', 'R:map:lport-only', 'R:map:peer-only',
+                            'R:map:local-only', 'R:map:proto-only', 'T:Pkt', 'T:pass', 'T:drop', 'T:long-idle',
+                            # the routine-local cache: packets decided by conntrack on a routine, packets admitted from a
+                            # routine's cache, under node log levels above and at trace
+                            'PktR', 'PktCached', 'R:served-from-routine-cache', 'R:log:info', 'R:log:trace', 'R:log:debug',
+                            'T:routine-cache', 'T:served-from-routine-cache', 'T:log:info', 'T:log:trace')
     left = ctx.actions.get('R:left-tour', 0)
     ctx.extra['tours_left_early'] = left
     if not ctx.violations and left * 5 > ctx.actions.get('R:tour', 1):
